@@ -16,6 +16,42 @@ pub fn draw_perms(g: &mut Gen, model: &Model) -> Option<PermSpec> {
         *f = g.rng.chance(density);
     }
     let streams: Vec<u32> = model.streams.keys().copied().collect();
+    // wide records: several stream records, each with a topic table of several entries (ids need not exist -
+    // a record is a value the codecs, the journal and the permissioner have to carry whatever it names)
+    if g.rng.chance(if g.cfg.codec_corners { 0.35 } else { 0.12 }) {
+        let mut ids: Vec<u32> = streams.clone();
+        ids.extend([70u32, 71, 72, 73]);
+        let n = 2 + g.rng.usize_below(3);
+        let mut out: Vec<(u32, [bool; 6], Option<Vec<(u32, [bool; 4])>>)> = Vec::new();
+        for _ in 0..n {
+            let sid = *g.rng.pick(&ids);
+            if out.iter().any(|x| x.0 == sid) {
+                continue;
+            }
+            let mut f = [false; 6];
+            for x in f.iter_mut() {
+                *x = g.rng.chance(0.3);
+            }
+            let k = g.rng.usize_below(5);
+            let mut table: Vec<(u32, [bool; 4])> = Vec::new();
+            for _ in 0..k {
+                let tid = *g.rng.pick(&[1u32, 2, 3, 4, 5, 256, 512, 1000]);
+                if table.iter().any(|x| x.0 == tid) {
+                    continue;
+                }
+                let mut tf = [false; 4];
+                for x in tf.iter_mut() {
+                    *x = g.rng.chance(0.4);
+                }
+                table.push((tid, tf));
+            }
+            let table = if table.is_empty() && !g.cfg.codec_corners { None } else if g.rng.chance(0.15) { None } else { Some(table) };
+            out.push((sid, f, table));
+        }
+        if !out.is_empty() {
+            return Some(PermSpec { global, streams: Some(out) });
+        }
+    }
     let spec_streams = if streams.is_empty() || g.rng.chance(0.3) {
         None
     } else {
